@@ -228,7 +228,10 @@ func (elem *DataElement) ToDict() map[string]interface{} {
 	if elem.From != "" {
 		out["from"] = elem.From
 	}
-	out["data"] = elem.Data
+	if elem.Data != nil {
+		// a nil map cannot be written to (set/unwind through a $mark path)
+		out["data"] = elem.Data
+	}
 	return out
 }
 
